@@ -46,8 +46,7 @@ Fixpoint spec_reg (l : list cell) (lim : Z) (ops : list rop) (obs : list robs) :
           robs_eqb (mkRobs SOverflow None (len l) l) b && spec_reg l lim t bt
         else
           let (l1, ret) := lstepR l o in
-          let lim1 := match o with RRaisePush => Z.max lim (len l + 1) | _ => lim end in
-          robs_eqb (mkRobs SOk ret (len l1) l1) b && spec_reg l1 lim1 t bt
+          robs_eqb (mkRobs SOk ret (len l1) l1) b && spec_reg l1 lim t bt
       else true
   | _, _ => false
   end.
